@@ -26,6 +26,8 @@ static uint64_t hash[64];
 static size_t max_ilen_set;
 static uint64_t limitN = UINT64_MAX;   /* total number of input frames of the stream (op `limit`) */
 static int is_cr;                /* constant-rate engine (plan export possible) */
+static uint64_t sig_shift;       /* op `shift d`: the stream is d arbitrary frames followed by the unshifted signal */
+static uint64_t win_a, win_n, win_seg; static uint64_t * win_hash; static size_t win_cnt;  /* op `window a n seg` */
 static size_t stale_ilen;        /* op `stale n`: the ilen passed along with in == NULL (soxr.h puts no requirement on it) */
 
 /* ---------- deterministic input signal: a function of (channel, absolute frame index) only */
@@ -37,6 +39,8 @@ static double sig(unsigned c, uint64_t i)
   noise = (double)(z >> 11) / 9007199254740992. - .5;
   return .45 * sin((double)i * (.0131 + .003 * c)) + .3 * sin((double)i * .41 + c) + .2 * noise;
 }
+
+static double sigs(unsigned c, uint64_t i) { return i < sig_shift? sig(c + 31, i) : sig(c, i - sig_shift); }
 
 static size_t tsize(int t) { return soxr_datatype_size((soxr_datatype_t)t); }
 
@@ -59,13 +63,13 @@ static void * make_input(size_t n, void * * to_free)
     split_ptrs = malloc(sizeof(void *) * ch);
     for (c = 0; c < ch; ++c) {
       split_ptrs[c] = malloc(n * sz + !n);
-      for (i = 0; i < n; ++i) put_sample(split_ptrs[c], itype, i, sig(c, pos + i));
+      for (i = 0; i < n; ++i) put_sample(split_ptrs[c], itype, i, sigs(c, pos + i));
     }
     *to_free = 0;
     return split_ptrs;
   } else {
     void * b = malloc(n * sz * ch + !(n * ch));
-    for (i = 0; i < n; ++i) for (c = 0; c < ch; ++c) put_sample(b, itype, i * ch + c, sig(c, pos + i));
+    for (i = 0; i < n; ++i) for (c = 0; c < ch; ++c) put_sample(b, itype, i * ch + c, sigs(c, pos + i));
     *to_free = b;
     return b;
   }
@@ -95,6 +99,10 @@ static void absorb_output(void * out, size_t n)
     unsigned char const * p = (otype & SOXR_SPLIT)? (unsigned char *)((void * *)out)[c] + i * sz
                                                    : (unsigned char *)out + (i * ch + c) * sz;
     for (b = 0; b < sz; ++b) hash[c] = (hash[c] ^ p[b]) * 0x100000001B3ull;
+    if (win_hash && total_out + i >= win_a && total_out + i - win_a < win_n) {   /* output frames [a, a+n) in segments, all channels */
+      uint64_t * w = win_hash + (total_out + i - win_a) / win_seg;
+      for (b = 0; b < sz; ++b) *w = (*w ^ p[b]) * 0x100000001B3ull;
+    }
   }
   total_out += n;
 }
@@ -261,7 +269,8 @@ static void do_create(char * * t, int nt)
   rt.flags = kvu(t, nt, "rtflags", 0);
   if (S) soxr_delete(S);
   S = soxr_create(irate, orate, ch, &create_err, &io, &q, &rt);
-  pos = total_out = 0; memset(hash, 0, sizeof(hash)); max_ilen_set = 0; limitN = UINT64_MAX;
+  pos = total_out = 0; memset(hash, 0, sizeof(hash)); max_ilen_set = 0; limitN = UINT64_MAX; sig_shift = 0;
+  free(win_hash); win_hash = 0;
   if (!S) { printf("< CREATE err %s\n", create_err); return; }
   e = (char *)soxr_engine(S);
   is_cr = e[0] == 'c' && e[1] == 'r';
@@ -330,6 +339,12 @@ int main(void)
       for (i = 1; i < nt; ++i) gscript[i - 1] = strdup(t[i]);
     }
     else if (!strcmp(t[0], "limit") && nt >= 2) limitN = strtoull(t[1], 0, 10);
+    else if (!strcmp(t[0], "shift") && nt >= 2) sig_shift = strtoull(t[1], 0, 10);
+    else if (!strcmp(t[0], "window") && nt >= 4) {   /* window a n seg: separate checksums of output frames [a, a+n), one per `seg` frames */
+      win_a = strtoull(t[1], 0, 10); win_n = strtoull(t[2], 0, 10); win_seg = strtoull(t[3], 0, 10); if (!win_seg) win_seg = 1;
+      win_cnt = (size_t)((win_n + win_seg - 1) / win_seg);
+      free(win_hash); win_hash = calloc(win_cnt + 1, sizeof(*win_hash));
+    }
     else if (!strcmp(t[0], "stale") && nt >= 2) stale_ilen = (size_t)strtoull(t[1], 0, 10);
     else if (!strcmp(t[0], "feed") && nt >= 4) {     /* feed il ol useIdone: next block of the stream, or a flush request once it is used up */
       size_t il = (size_t)strtoull(t[1], 0, 10), ol = (size_t)strtoull(t[2], 0, 10);
@@ -372,6 +387,8 @@ int main(void)
       unsigned c; printf("H out=%" PRIu64 " pos=%" PRIu64 " clips=%zu err=%s", total_out, pos, *soxr_num_clips(S), S->error? S->error : "-");
       for (c = 0; c < ch && c < 64; ++c) printf(" %016" PRIx64, hash[c]);
       printf("\n");
+      if (win_hash) { size_t k; printf("X a=%" PRIu64 " n=%" PRIu64 " seg=%" PRIu64 " h=", win_a, win_n, win_seg);
+        for (k = 0; k < win_cnt; ++k) printf("%016" PRIx64 ",", win_hash[k]); printf("\n"); }
     }
     else printf("< bad-op %s\n", t[0]);
     fflush(stdout);
